@@ -188,12 +188,20 @@ def run_sim(chk, n_cfg):
             conn.register_packet_listener(late2, KeepAlivePacket)
             conn.register_packet_listener(lambda p: log.append(('late3', type(p).__name__)), Packet)
 
+            marks = []
+            on_wire = lambda: sum(len(x) for x in net.servers[0].sends)
+
             def eout(p):
                 log.append(('eout', type(p).__name__))
+                marks.append(('e', on_wire()))
                 if suppress_out:
                     raise IgnorePacket()
+
+            def out(p):
+                log.append(('out', type(p).__name__))
+                marks.append(('o', on_wire()))
             conn.register_packet_listener(eout, sb.play.KeepAlivePacket, outgoing=True, early=True)
-            conn.register_packet_listener(lambda p: log.append(('out', type(p).__name__)), sb.play.KeepAlivePacket, outgoing=True)
+            conn.register_packet_listener(out, sb.play.KeepAlivePacket, outgoing=True)
             conn.connect()
             net.run_threads(conn)
         finally:
@@ -224,6 +232,12 @@ def run_sim(chk, n_cfg):
         chk.count('sim', case, ignore_early or ignore_late or suppress_out)
         nka = count_keepalive_frames(net.servers[0].sends, ids, thr)
         exp_frames = 0 if suppress_out else answered
+        # the packet is on the wire between its early outgoing listener and its ordinary outgoing listener
+        unwritten = [k for k in range(len(marks) - 1) if marks[k][0] == 'e' and marks[k + 1][0] == 'o' and not marks[k + 1][1] > marks[k][1]]
+        if unwritten and inc == exp and outl == exp_out:
+            chk.violation('sim', 'sim:unwritten:%s' % (hash(str(case)) % 10 ** 8), {'case': case, 'observed': {'bytes_on_wire_at_listener_calls': marks[:12]}},
+                          'through the real reactors: the ordinary outgoing listener of keep-alive answer %d ran before that packet had been written (%d bytes on the wire before and after)' % (
+                              unwritten[0] // 2, marks[unwritten[0]][1]))
         if inc != exp or outl != exp_out or nka != exp_frames:
             chk.violation('sim', 'sim:%s' % (hash(str(case)) % 10 ** 8), {'case': case, 'expected': [exp, exp_out, exp_frames], 'observed': [inc, outl, nka]},
                           'through the real reactors: incoming log %s (expected %s), outgoing log %s (expected %s), %d keep-alive frames on the wire (expected %d)' % (inc[:8], exp[:8], outl[:6], exp_out[:6], nka, exp_frames))
